@@ -333,19 +333,18 @@ private:
         break;
       }
 
-      // Copy the registry under lock to avoid race conditions
-      std::set<JsonFileStore *> storesToFlush;
+      // Flush under the registry lock: a store cannot be destroyed while it is
+      // being flushed (its destructor waits in unregisterStore()). Never WAIT for
+      // that lock, though: unregisterStore() joins this thread while holding it,
+      // so blocking here would deadlock the destructor of the last store. If the
+      // registry is busy (a store is being created or destroyed) skip this round;
+      // the loop condition re-checks shouldExit().
+      std::unique_lock<std::mutex> lock(registryMutex(), std::try_to_lock);
+      if (!lock.owns_lock())
       {
-        std::lock_guard<std::mutex> lock(registryMutex());
-        if (shouldExit())
-        {
-          break;
-        }
-        storesToFlush = registry();
+        continue;
       }
-
-      // Now iterate over the copy without holding the registry lock
-      for (auto *store : storesToFlush)
+      for (auto *store : registry())
       {
         if (shouldExit())
         {
